@@ -23,6 +23,9 @@ type Options struct {
 	Docs       bool // descriptions (multi-paragraph, shared between items) and deprecated flags
 	DocsDense  bool // with Docs: nearly every item is described and half of them deprecated
 	Discs      bool // with Sums: oneOf over object components with an explicit discriminator and mapping
+	// PropDefaults: optional plain members of objects (no validator, enum or format) get a `default`.
+	// Only for checks that do not model values (C02, C10).
+	PropDefaults bool
 	Names      func(t *rapid.T, label string) string
 }
 
@@ -181,7 +184,21 @@ func (g *genCtx) genObject(t *rapid.T, depth int) *Schema {
 			continue
 		}
 		seen[nm] = true
-		s.Props = append(s.Props, Prop{Name: nm, Schema: g.gen(t, depth+1), Required: rapid.Bool().Draw(t, "required")})
+		pr := Prop{Name: nm, Schema: g.gen(t, depth+1), Required: rapid.Bool().Draw(t, "required")}
+		if ps := pr.Schema; g.opt.PropDefaults && !pr.Required && ps.Ref == "" && ps.Enum == nil && ps.Format == "" && !ps.Nullable &&
+			ps.Min == "" && ps.Max == "" && ps.MultipleOf == "" && ps.Pattern == "" && ps.MinLen == nil && ps.MaxLen == nil && rapid.Bool().Draw(t, "propdefault") {
+			switch ps.Type {
+			case "string":
+				ps.Default = raw("dflt")
+			case "integer":
+				ps.Default = raw(7)
+			case "number":
+				ps.Default = raw(1.5)
+			case "boolean":
+				ps.Default = raw(true)
+			}
+		}
+		s.Props = append(s.Props, pr)
 	}
 	if g.opt.Maps {
 		switch rapid.IntRange(0, 5).Draw(t, "addprops") {
